@@ -349,6 +349,25 @@ static bool assumeCond(State &S, const Value *cond, bool truth) {
   return true;
 }
 
+// (x != c) with c strictly inside the interval of x's root: split the state so that boxes stay exact
+static bool splitHole(State &S, const Value *cond, bool truth, State &extra) {
+  auto *ic = dyn_cast<ICmpInst>(cond);
+  if (!ic || !ic->isEquality()) return false;
+  bool ne = (ic->getPredicate() == CmpInst::ICMP_NE) == truth;
+  if (!ne) return false;
+  Val a = getVal(S, ic->getOperand(0)), b = getVal(S, ic->getOperand(1));
+  if (a.k != Val::INT || b.k != Val::INT) return false;
+  if (a.root < 0 && b.root >= 0) std::swap(a, b);
+  if (a.root < 0 || !b.isConst()) return false;
+  Root &R = S.roots[a.root];
+  i128 c = ap2i(b.constVal(), !R.isUnsigned) - a.rk;
+  if (c <= R.lo || c >= R.hi) return false;
+  extra = S;
+  extra.roots[a.root].lo = c + 1;
+  R.hi = c - 1;
+  return true;
+}
+
 struct Engine {
   std::vector<State> work;
   std::vector<State> done;
@@ -445,6 +464,8 @@ struct Engine {
         int t = (c.k == Val::INT && c.isConst()) ? (c.constVal().isZero() ? 0 : 1) : -1;
         if (t < 0) {
           State T = S;
+          { State X; if (splitHole(S, br->getCondition(), true, X)) { work.push_back(std::move(X)); }
+            State Y; if (splitHole(T, br->getCondition(), false, Y)) { work.push_back(std::move(Y)); } }
           bool f1 = assumeCond(S, br->getCondition(), true), f0 = assumeCond(T, br->getCondition(), false);
           if (f0 && f1) { if (loopOk(T, br->getSuccessor(1), I)) { enterBlock(T, br->getSuccessor(1)); } work.push_back(std::move(T)); t = 1; }
           else if (f1) t = 1; else if (f0) { S = std::move(T); t = 0; }
@@ -539,6 +560,14 @@ struct Engine {
     if (idx.isConst()) { if (p.root >= 0) { r.root = p.root; r.rk = p.rk + (i128)idx.constVal().getSExtValue() * (i128)scale; } }
     else if (idx.root >= 0 && scale == 1 && p.r.isSingleElement()) { r.root = idx.root; r.rk = idx.rk + p.r.getSingleElement()->getSExtValue(); }
     r.prov |= idx.prov;
+    // known bits of the offset (table index masks such as (x | 1) & 0x3f)
+    r.kb = KnownBits(64);
+    if (p.r.isSingleElement() && scale == 1 && idx.k == Val::INT && !idx.kb.hasConflict()) {
+      KnownBits ik = idx.w < 64 ? idx.kb.zext(64) : idx.kb;
+      if (idx.w < 64 && !idx.kb.isNonNegative()) ik = KnownBits(64);
+      r.kb = KnownBits::computeForAddSub(true, false, KnownBits::makeConstant(*p.r.getSingleElement()), ik);
+      if (r.kb.hasConflict()) r.kb = KnownBits(64);
+    }
     return r;
   }
 
